@@ -494,6 +494,14 @@ func init() {
 		}
 	}})
 	// ---------------- sinks
+	// like ToSliceFlatten, but the harness keeps the emitted slice by reference (Env.CheckHeld: a value that
+	// has been delivered is never modified afterwards, whoever else uses the same operator value)
+	reg(&StageDef{Name: "ToSliceKeep", GenP: noP, Flags: Flags{Stores: true}, Build: func(e *Env, aux []ro.Observable[int], p []int) func(ro.Observable[int]) ro.Observable[int] {
+		ts := ro.ToSlice[int]()
+		keep := ro.Map(func(s []int) []int { e.Hold(s); return s })
+		fl := ro.Flatten[int]()
+		return func(src ro.Observable[int]) ro.Observable[int] { return fl(keep(ts(src))) }
+	}})
 	reg(&StageDef{Name: "ToSliceFlatten", GenP: noP, Flags: Flags{Stores: true}, Build: func(e *Env, aux []ro.Observable[int], p []int) func(ro.Observable[int]) ro.Observable[int] {
 		return func(src ro.Observable[int]) ro.Observable[int] {
 			return ro.Flatten[int]()(ro.ToSlice[int]()(src))
@@ -527,6 +535,17 @@ func sl2i(s []int) int {
 		v = v*100 + x
 	}
 	return v
+}
+
+// asyncOuter emits the given observables one by one from a producer goroutine of its own, then completes.
+func asyncOuter(e *Env, srcs []ro.Observable[int]) ro.Observable[ro.Observable[int]] {
+	var script []Step
+	for i := range srcs {
+		script = append(script, Step{K: "N", V: i})
+	}
+	script = append(script, Step{K: "C"})
+	outer := e.NewSrc(SrcSpec{Mode: "async", Script: script})
+	return ro.Map(func(i int) ro.Observable[int] { return srcs[i] })(outer.Obs())
 }
 
 func obsOfObs(srcs []ro.Observable[int]) ro.Observable[ro.Observable[int]] {
@@ -581,6 +600,16 @@ func init() {
 	regc(&CombDef{Name: "MergeWith3", Min: 4, Max: 4, Build: func(e *Env, s []ro.Observable[int]) ro.Observable[int] { return ro.MergeWith3(s[1], s[2], s[3])(s[0]) }})
 	regc(&CombDef{Name: "RaceWith", Min: 2, Max: 3, Build: func(e *Env, s []ro.Observable[int]) ro.Observable[int] { return ro.RaceWith(s[1:]...)(s[0]) }})
 	regc(&CombDef{Name: "ConcatWith", Min: 2, Max: 3, Flags: Flags{Waits: true}, Build: func(e *Env, s []ro.Observable[int]) ro.Observable[int] { return ro.ConcatWith(s[1:]...)(s[0]) }})
+	// higher-order operators over an outer source that delivers the inner observables from its own goroutine,
+	// after Subscribe has returned (the *All operators over Just(...) see them all synchronously)
+	regc(&CombDef{Name: "MergeAllAsync", Min: 2, Max: 3, Build: func(e *Env, s []ro.Observable[int]) ro.Observable[int] { return ro.MergeAll[int]()(asyncOuter(e, s)) }})
+	regc(&CombDef{Name: "ConcatAllAsync", Min: 2, Max: 3, Flags: Flags{Waits: true}, Build: func(e *Env, s []ro.Observable[int]) ro.Observable[int] { return ro.ConcatAll[int]()(asyncOuter(e, s)) }})
+	regc(&CombDef{Name: "ZipAllAsync", Min: 2, Max: 3, Build: func(e *Env, s []ro.Observable[int]) ro.Observable[int] {
+		return ro.Map(sl2i)(ro.ZipAll[int]()(asyncOuter(e, s)))
+	}})
+	regc(&CombDef{Name: "CombineLatestAllAsync", Min: 2, Max: 3, Build: func(e *Env, s []ro.Observable[int]) ro.Observable[int] {
+		return ro.Map(sl2i)(ro.CombineLatestAll[int]()(asyncOuter(e, s)))
+	}})
 	regc(&CombDef{Name: "TakeUntil", Min: 2, Max: 2, Build: func(e *Env, s []ro.Observable[int]) ro.Observable[int] { return ro.TakeUntil[int](s[1])(s[0]) }})
 	regc(&CombDef{Name: "SkipUntil", Min: 2, Max: 2, Build: func(e *Env, s []ro.Observable[int]) ro.Observable[int] { return ro.SkipUntil[int](s[1])(s[0]) }})
 	regc(&CombDef{Name: "BufferWhen", Min: 2, Max: 2, Build: func(e *Env, s []ro.Observable[int]) ro.Observable[int] {
